@@ -442,3 +442,6 @@ RULES = [
     {"id": "C19.R7", "fn": r7, "quick": Q, "thorough": TH},
     {"id": "C19.R8", "fn": r8, "quick": Q, "thorough": TH},
 ]
+from .positive import control
+RULES.append({"id": "C19.P", "fn": control('alloc'), "quick": ["pos"], "thorough": ["pos"]})
+DOC["C19.P"] = 'positive control: planted Vec::with_capacity(declared_len) must be reported by the allocation taint detector'
